@@ -33,7 +33,7 @@ def load_findings():
     path = os.path.join(VERIF_ROOT, "known_findings.json")
     if not os.path.exists(path):
         return []
-    with open(path) as f:
+    with open(path, encoding="utf-8") as f:
         return json.load(f)
 
 
@@ -65,7 +65,7 @@ def write_replay(prop, violation, mod):
             doc["repro_py"] = repro(violation["case"])
         except Exception as e:  # noqa: BLE001
             doc["repro_py"] = f"# could not render stand-alone repro: {e!r}"
-    with open(path, "w") as f:
+    with open(path, "w", encoding="utf-8") as f:
         json.dump(doc, f, indent=1, sort_keys=True)
     return path
 
@@ -84,7 +84,7 @@ def write_evidence(prop, tier, seed, level, coverage, assumptions, wall_s, n_vio
         "violations": int(n_viol),
     }
     tmp = os.path.join(d, f".{prop}.json.tmp")
-    with open(tmp, "w") as f:
+    with open(tmp, "w", encoding="utf-8") as f:
         json.dump(ev, f, indent=1, sort_keys=True)
     os.replace(tmp, os.path.join(d, f"{prop}.json"))
 
@@ -125,7 +125,7 @@ def finish_second_interpreter(prop, p, out):
         if line.startswith("VIOLATION ") and "replay=" in line:
             path = line.split("replay=", 1)[1].strip()
             try:
-                with open(path) as f:
+                with open(path, encoding="utf-8") as f:
                     d = json.load(f)
                 d["interpreter_flags"] = SECOND_FLAGS
                 if d not in docs:
@@ -134,7 +134,7 @@ def finish_second_interpreter(prop, p, out):
                 pass
     ev = {}
     try:
-        with open(os.path.join(out, "evidence", f"{prop}.json")) as f:
+        with open(os.path.join(out, "evidence", f"{prop}.json"), encoding="utf-8") as f:
             ev = json.load(f)
     except Exception:  # noqa: BLE001
         pass
@@ -167,7 +167,7 @@ def main(argv=None):
     if args.replay:
         from mc import kernel
         kernel.MAX_PER_SIGNATURE = 10 ** 6  # replays re-run a family and pick the case: keep everything
-        with open(args.replay) as f:
+        with open(args.replay, encoding="utf-8") as f:
             doc = json.load(f)
         if doc.get("interpreter_flags") and not sys.flags.optimize and "-O" in doc["interpreter_flags"]:
             # found by the second interpreter: replay it there
